@@ -274,7 +274,10 @@ def u_subgroup_check(ctx):
         grp = GroupCtx("E", "proj", coord_cls=ccls)
         P = grp.atom("P")
         mc = MulContract(grp, q)
-        cons = {f"{OPT_BLS}.multiply": mc, f"{OPT_BLS}.is_inf": GOp(grp, "is_inf", q)}
+        # every coordinate-level function of the curve module under its group-level contract (proved by the C13/C07 units):
+        # an equivalent formulation such as (r-1).P + P must reach the same normal form r.P
+        cons = group_contracts(grp, OPT_BLS, q)
+        cons[f"{OPT_BLS}.multiply"] = mc
         it = mk_interp(ctx, q, contracts=cons)
         kind, res = call_top(it, fv, [P])
         if kind == "raise":
@@ -301,7 +304,8 @@ def u_clear_cofactor(ctx, which):
     def body(path):
         grp = GroupCtx("E", "proj")
         P = grp.atom("P")
-        cons = {f"{OPT_BLS}.multiply": MulContract(grp, q)}
+        cons = group_contracts(grp, OPT_BLS, q)
+        cons[f"{OPT_BLS}.multiply"] = MulContract(grp, q)
         it = mk_interp(ctx, q, contracts=cons)
         kind, res = call_top(it, fv, [P])
         if kind == "raise":
